@@ -844,6 +844,11 @@ The full stretch goal, as a type-checked `Prop` (a *definition*, nothing is asse
 two schemas agree up to the order of the items and of the variants of tagged enums.  By `codegen_perm_eq_mapTypes`
 it only concerns `Schema.mapTypes`. -/
 
+/-- elementwise relation of two lists of the same length -/
+inductive AllRel {α β : Type} (R : α → β → Prop) : List α → List β → Prop
+  | nil : AllRel R [] []
+  | cons {x y xs ys} : R x y → AllRel R xs ys → AllRel R (x :: xs) (y :: ys)
+
 /-- equal up to the order of the variants of a tagged enum -/
 inductive ItemEqv : Item → Item → Prop
   | refl (i : Item) : ItemEqv i i
@@ -851,7 +856,7 @@ inductive ItemEqv : Item → Item → Prop
       vs.Perm vs' → ItemEqv (.tagged n d c tag vs) (.tagged n d c tag vs')
 
 /-- equal up to the order of the items (and of tagged-enum variants) -/
-def ItemsEqv (l l' : List Item) : Prop := ∃ m, List.Forall₂ ItemEqv l m ∧ m.Perm l'
+def ItemsEqv (l l' : List Item) : Prop := ∃ m, AllRel ItemEqv l m ∧ m.Perm l'
 
 def ModuleEqv (m m' : Module) : Prop :=
   m.modName = m'.modName ∧ m.vis = m'.vis ∧ m.structDecl = m'.structDecl ∧ m.operationName = m'.operationName ∧
@@ -862,7 +867,7 @@ def ModuleEqv (m m' : Module) : Prop :=
 def CodegenIsoPermStatement : Prop :=
   ∀ (a a' : AS), WfAS a → PermOf a a' → ∀ (cs : CaseFns) (o : Options) (queryText : String) (doc : QDoc)
     (ms : List Module), Codegen.generate a.toSchema cs o queryText doc = .ok ms →
-      ∃ ms', Codegen.generate a'.toSchema cs o queryText doc = .ok ms' ∧ List.Forall₂ ModuleEqv ms ms'
+      ∃ ms', Codegen.generate a'.toSchema cs o queryText doc = .ok ms' ∧ AllRel ModuleEqv ms ms'
 
 /-! ## witnesses -/
 
